@@ -1,10 +1,14 @@
 """C17 — the workspace holds exactly the models its history leaves in it.
-Proof: coq/Props/C17.v (invariant for every history, refinement of the abstract workspace).
-Correspondence: every step of generated histories, real Workspace (hook verif_snapshot) vs coq/C17/Model.v."""
+Proof: coq/Props/C17.v (invariant for every history; refinement of the predicate-shaped abstract workspace of coq/C17/Abstract.v;
+the document identity is part of the model: replace, deploy, evaluate serves the new document).
+Correspondence: every step of generated histories, real Workspace (hook verif_snapshot) vs coq/C17/Model.v; the value of every
+evaluation must be the one of the document the Coq model says is served (OEval (Some doc))."""
+import concurrent.futures
 import itertools
 import json
+import time
 
-from vlib import core
+from vlib import core, coqterm
 
 HEADER = 'From Coq Require Import List NArith Bool.\nFrom DV Require Import C17.Model.\nImport ListNotations.\nOpen Scope N_scope.\n'
 
@@ -38,8 +42,9 @@ ALPHABET = ([('add', i) for i in range(6)] + [('replace', i) for i in (1, 2, 3, 
 
 
 def coq_mdl(i):
-    ns, nm, b, _ = MODELS[i]
-    return '{| ns := %d; nm := %d; builds := %s |}' % (ns, nm, 'true' if b else 'false')
+    # doc = the value of the decision `dec` of the document: the identity of the document as an evaluation shows it
+    ns, nm, b, val = MODELS[i]
+    return '{| ns := %d; nm := %d; builds := %s; doc := %d |}' % (ns, nm, 'true' if b else 'false', val)
 
 
 def coq_op(o):
@@ -95,75 +100,313 @@ def spec_violation(hist, steps):
 
 
 def expected_steps(hist, trace):
-    """Model trace -> the canonical form of the harness output."""
+    """Model trace -> the canonical form of the harness output.  The Coq model is the oracle for WHICH document answers an
+    evaluation: OEval (Some doc) -> {'deployed': doc}."""
     exp = []
     for o, (out, s) in zip(hist, trace):
         defs = [['ns%d' % d['ns'], 'm%d' % d['nm']] for d in s['defs']]
         snap = {'defs': defs, 'by_ns': sorted('ns%d' % x for x in set(s['by_ns'])), 'by_name': sorted('m%d' % x for x in set(s['by_nm'])),
-                'evs': sorted('m%d' % x for x in set(s['evs']))}
+                'evs': sorted('m%d' % k for k in set(k for k, _ in s['evs']))}
         if out.name == 'OAdd':
             r = out.args[0]
         elif out.name == 'OUnit':
             r = True if o[0] == 'deploy' else None
         else:
-            r = 'deployed' if out.args[0] else 'not-deployed'
+            served = out.args[0]            # Some doc | None
+            r = {'deployed': served.args[0]} if served.name == 'Some' else 'not-deployed'
         exp.append({'r': r, 's': snap})
     return exp
 
 
-def canon_steps(hist, steps, trace):
-    """Replaces evaluation values by 'deployed' after checking that the value is the one of the document that the history left stored under
-    that (namespace, name) at the last deploy: several alphabet documents share (namespace, name) with different decision values (A and A'),
-    so a replace that keeps serving the old document is seen."""
+def canon_steps(hist, steps):
+    """The harness output with the value of an evaluation reduced to the document identity it shows ({'v': number} -> {'deployed': n}):
+    the alphabet documents answer `dec` with their own constant (A 101, A' 105, ...), so the value tells which document was served."""
     out = []
-    bad = None
-    stored = {}       # (ns, nm) -> index of the alphabet document stored under it, following the proved model's trace
-    deployed = {}     # the same at the last deploy
-    for o, st, (mo, ms) in zip(hist, steps, trace):
-        keys = set((d['ns'], d['nm']) for d in ms['defs'])
-        if o[0] in ('add', 'replace'):
-            m = MODELS[o[1]]
-            ok = (mo.name == 'OAdd' and mo.args[0] is True) if o[0] == 'add' else ((m[0], m[1]) in keys)
-            if ok:
-                stored[(m[0], m[1])] = o[1]
-        stored = {k: v for k, v in stored.items() if k in keys}
-        if o[0] == 'deploy':
-            deployed = dict(stored)
+    for o, st in zip(hist, steps):
         r = st['r']
         if isinstance(r, dict) and 'v' in r:
-            want = [MODELS[i][3] for (ns, nm), i in deployed.items() if nm == o[1]]
             got = r['v'].get('p') if isinstance(r['v'], dict) else None
-            if got is None or len(want) != 1 or int(got) != want[0]:
-                bad = 'evaluation of m%d returned %s, the document stored under that name at the last deploy gives %s' % (o[1], r, want)
-            r = 'deployed'
+            try:
+                r = {'deployed': int(got)}
+            except (TypeError, ValueError):
+                r = {'deployed': None, 'value': r['v']}
         out.append({'r': r, 's': st['s']})
-    return out, bad
+    return out
 
 
-def histories(ctx):
-    hs = []
-    n_ex = ctx.pick(3, 4)
-    for h in itertools.product(ALPHABET, repeat=n_ex):
-        hs.append(list(h))
-    exhaustive = len(hs)
+def stale_document(hist, got, exp):
+    """A description when an evaluation is answered by another document than the one the proved model serves."""
+    for i, (o, a, b) in enumerate(zip(hist, got, exp)):
+        if a['s'] == b['s'] and isinstance(a['r'], dict) and isinstance(b['r'], dict) and a['r'] != b['r']:
+            return i, ('evaluation of m%d answered by document %s, the history leaves document %s deployed under that name'
+                       % (o[1], a['r'].get('deployed'), b['r'].get('deployed')))
+    return None
+
+
+# ---------------------------------------------------------------------------------------------- exhaustive part
+# All histories of length 1..n over the alphabet.  The Coq model walks the tree itself (`explore`, C17/Model.v: pre-order, each node
+# = result of the last operation + observation of the state); the implementation runs every history of length n and a node of
+# length k is step k-1 of the first leaf below it.  One text per subtree is compared (white space removed); only on a difference
+# is the model's output parsed to find the first differing node.
+PREFIX_LEN = 2
+
+
+def preorder(depth):
+    """index tuples of the histories of length 1..depth in the order `explore` lists them"""
+    out = []
+
+    def go(pre, d):
+        if d == 0:
+            return
+        for i in range(len(ALPHABET)):
+            t = pre + (i,)
+            out.append(t)
+            go(t, d - 1)
+    go((), depth)
+    return out
+
+
+def node_text(o, st):
+    """the text Coq prints for one node of `explore`, from the implementation's step: (out, (defs, by_ns, by_nm, evs))"""
+    r = st['r']
+    if o[0] in ('add', 'replace'):
+        out = 'OAdd true' if r is True else 'OAdd false' if r is False else 'OAdd %r' % (r,)
+    elif o[0] == 'eval':
+        if isinstance(r, dict) and 'v' in r:
+            v = r['v']
+            out = 'OEval (Some %s)' % (v.get('p') if isinstance(v, dict) and 'p' in v else json.dumps(v))
+        else:
+            out = 'OEval None' if r == 'not-deployed' else 'OEval %r' % (r,)
+    elif o[0] == 'deploy':
+        out = 'OUnit' if r is True else 'deploy %r' % (r,)
+    else:
+        out = 'OUnit' if r is None else '%s %r' % (o[0], r)
+    s = st['s']
+
+    def num(x):
+        return int(x.lstrip('nsm')) if isinstance(x, str) and x.lstrip('nsm').isdigit() else x
+
+    def lst(xs):
+        return '[' + '; '.join(str(x) for x in sorted(set(num(x) for x in xs))) + ']'
+    # the index key sets are sets in the code (HashMap): a repeated key cannot be seen; the stored list is compared in order
+    defs = '[' + '; '.join('(%s, %s)' % (num(a), num(b)) for a, b in s['defs']) + ']'
+    return '(%s, (%s, %s, %s, %s))' % (out, defs, lst(s['by_ns']), lst(s['by_name']), lst(s['evs']))
+
+
+def show(e):
+    """a parsed Coq term back as text"""
+    if isinstance(e, coqterm.App):
+        return e.name if not e.args else '%s %s' % (e.name, ' '.join('(%s)' % show(a) if isinstance(a, coqterm.App) and a.args else show(a) for a in e.args))
+    if isinstance(e, bool):
+        return 'true' if e else 'false'
+    if isinstance(e, tuple):
+        return '(' + ', '.join(show(x) for x in e) + ')'
+    if isinstance(e, list):
+        return '[' + '; '.join(show(x) for x in e) + ']'
+    return str(e)
+
+
+def squeeze(t):
+    return ''.join(t.split())
+
+
+def run_model_raw(ctx, header, terms, shard_size):
+    """ctx.run_model without parsing: the text Coq prints for each `Eval vm_compute` (16 coqc processes)."""
+    import os
+    import re
+    if not terms:
+        return []
+    shards = [terms[i:i + shard_size] for i in range(0, len(terms), shard_size)]
+    cdir = os.path.join(core.BUILD, 'cases')
+
+    def work(ix):
+        name = '%s_x_%d_%d_%d' % (ctx.pid, os.getpid(), id(terms) % 100000, ix)
+        path = os.path.join(cdir, name + '.v')
+        with open(path, 'w') as f:
+            f.write(header + '\nSet Printing Width 1000000.\nSet Printing Depth 1000000.\n')
+            for t in shards[ix]:
+                f.write('Eval vm_compute in (%s).\n' % t)
+        rc, out = core.sh(['coqc', '-noglob', '-Q', core.COQ, 'DV', path], cwd=cdir, timeout=1800)
+        if rc != 0 and 'Error' not in out:
+            time.sleep(5)
+            rc, out = core.sh(['coqc', '-noglob', '-Q', core.COQ, 'DV', path], cwd=cdir, timeout=1800)
+        if rc != 0:
+            raise RuntimeError('model evaluation failed (exit status %s) in %s:\n%s' % (rc, path, out[-2000:]))
+        res = []
+        for chunk in re.split(r'^\s*= ', out, flags=re.M)[1:]:
+            j = chunk.rfind('\n     : ')
+            res.append(chunk[:j] if j >= 0 else chunk)
+        if len(res) != len(shards[ix]):
+            raise RuntimeError('model evaluation: %d results for %d terms in %s' % (len(res), len(shards[ix]), path))
+        for ext in ('.v', '.vo', '.vok', '.vos', '.glob'):
+            try:
+                os.remove(os.path.join(cdir, name + ext))
+            except OSError:
+                pass
+        return res
+
+    with concurrent.futures.ThreadPoolExecutor(max_workers=16) as ex:
+        parts = list(ex.map(work, range(len(shards))))
+    return [r for part in parts for r in part]
+
+
+def ws_request(h):
+    return {'models': XMLS, 'ops': [impl_op(o) for o in h]}
+
+
+class _Stub:
+    """what run_model_raw needs of a Ctx, inside a worker process"""
+    def __init__(self, pid):
+        self.pid = pid
+
+
+def compare_subtree(prefix, node_list, steps_of, model_text):
+    """node_list: index tuples below the prefix in pre-order; steps_of(t) -> (history, step dict of its last operation | None).
+    Returns None or (what, case, impl, model) for the first node that differs from the proved model."""
+    got = []
+    for t in node_list:
+        h, st = steps_of(t)
+        if st is None:
+            return None      # a crash, reported with the leaf
+        got.append(node_text(h[-1], st))
+    if squeeze('[' + '; '.join(got) + ']') == squeeze(model_text):
+        return None
+    exp = coqterm.parse(model_text)
+    for t, g, e in zip(node_list, got, exp):
+        ge = coqterm.parse(g)
+        if ge != e:
+            h, st = steps_of(t)
+            what = 'implementation state/result differs from the proved model'
+            if ge[1] == e[1] and ge[0].name == 'OEval' and e[0].name == 'OEval' and ge[0].args[0].name == 'Some' and e[0].args[0].name == 'Some':
+                what = ('evaluation of m%d answered by document %s, the history leaves document %s deployed under that name'
+                        % (h[-1][1], ge[0].args[0].args[0], e[0].args[0].args[0]))
+            return ('step %d (%s): %s: %s, model %s' % (len(h) - 1, h[-1], what, g, show(e)), {'history': [list(o) for o in h]}, g, show(e))
+    return ('the implementation and the proved model list different numbers of histories below %s' % (prefix,),
+            {'history': [list(ALPHABET[i]) for i in prefix]}, len(got), len(exp))
+
+
+def exhaustive_round(args):
+    """One group of prefixes, in a worker process: runs the harness on every leaf below them and the model on every subtree, compares.
+    Returns counters and the violations found (reported by the parent)."""
+    pid, n, depth, grp, header = args
+    A = len(ALPHABET)
+    below = preorder(depth)
+    leaves = [p + t for p in grp for t in itertools.product(range(A), repeat=depth)]
+    with concurrent.futures.ThreadPoolExecutor(max_workers=2) as ex:
+        f_impl = ex.submit(core.Ctx.run_impl, None, 'ws', [ws_request([ALPHABET[i] for i in t]) for t in leaves], shards=2)
+        f_model = ex.submit(run_model_raw, _Stub(pid), header,
+                            ['explore alpha %d (fst (run remove init [%s]))' % (depth, '; '.join(coq_op(ALPHABET[i]) for i in p)) for p in grp],
+                            max(1, (len(grp) + 1) // 2))
+        impl, mtxts = f_impl.result(), f_model.result()
+    res = {'leaves': len(leaves), 'nontrivial': 0, 'kinds': {}, 'nodes': 0, 'violations': []}
+    by_leaf = dict(zip(leaves, impl))
+    for t, st in by_leaf.items():
+        h = [ALPHABET[i] for i in t]
+        if any(o[0] in ('remove', 'replace') for o in h):
+            res['nontrivial'] += 1
+        for o in h:
+            res['kinds'][o[0]] = res['kinds'].get(o[0], 0) + 1
+        if not isinstance(st, list) or len(st) != len(h):
+            res['violations'].append(('workspace operation sequence crashed the process or panicked: %s' % json.dumps(st)[:200], {'history': [list(o) for o in h]}, st, None))
+            by_leaf[t] = None
+            continue
+        sv = spec_violation(h, st)
+        if sv:
+            res['violations'].append((sv, {'history': [list(o) for o in h]}, st, None))
+    for p, mtxt in zip(grp, mtxts):
+        def steps(t, p=p):
+            full = p + t
+            st = by_leaf.get(full + (0,) * (n - len(full)))
+            return [ALPHABET[i] for i in full], (st[len(full) - 1] if st is not None else None)
+        v = compare_subtree(p, below, steps, mtxt)
+        res['nodes'] += len(below)
+        if v:
+            res['violations'].append(v)
+    return res
+
+
+def exhaustive(ctx, n, kinds):
+    """returns the number of histories (nodes) compared"""
+    alpha = 'Definition alpha : list op := [%s].\n' % '; '.join(coq_op(o) for o in ALPHABET)
+    header = HEADER + alpha
+    A = len(ALPHABET)
+    nodes = 0
+    # the top of the tree: lengths 1..PREFIX_LEN, each history run as it is
+    top = preorder(min(PREFIX_LEN, n))
+    impl = ctx.run_impl('ws', [ws_request([ALPHABET[i] for i in t]) for t in top], shards=16)
+    mtxt = run_model_raw(ctx, header, ['explore alpha %d init' % min(PREFIX_LEN, n)], 1)[0]
+    by_t = dict(zip(top, impl))
+
+    def top_steps(t):
+        h = [ALPHABET[i] for i in t]
+        st = by_t[t]
+        if not isinstance(st, list) or len(st) != len(h):
+            ctx.violation('workspace operation sequence crashed the process or panicked: %s' % json.dumps(st)[:200], {'history': [list(o) for o in h]}, impl=st)
+            return h, None
+        return h, st[-1]
+    v = compare_subtree((), top, top_steps, mtxt)
+    nodes += len(top)
+    ctx.corr_checked += len(top)
+    if v:
+        ctx.violation(v[0], v[1], impl=v[2], model=v[3])
+    if n <= PREFIX_LEN:
+        return nodes
+    # below every prefix of length PREFIX_LEN: depth n - PREFIX_LEN; all leaves are run, inner nodes are read off the first leaf below them.
+    # 8 worker processes (the comparison itself is Python work), each with 2 harness processes and up to 2 coqc
+    depth = n - PREFIX_LEN
+    prefixes = list(itertools.product(range(A), repeat=PREFIX_LEN))
+    group = max(1, 12000 // (A ** depth))          # leaves per round: bounded memory
+    jobs = [(ctx.pid, n, depth, prefixes[g0:g0 + group], header) for g0 in range(0, len(prefixes), group)]
+    with concurrent.futures.ProcessPoolExecutor(max_workers=8) as pool:
+        for res in pool.map(exhaustive_round, jobs):
+            ctx.evaluations += res['leaves']
+            base = len(ctx.nontrivial)
+            ctx.nontrivial.update(('exhaustive', base + i) for i in range(res['nontrivial']))
+            for k, c in res['kinds'].items():
+                kinds[k] = kinds.get(k, 0) + c
+            nodes += res['nodes']
+            ctx.corr_checked += res['nodes']
+            for what, case, im, mo in res['violations']:
+                ctx.violation(what, case, impl=im, model=mo)
+    return nodes
+
+
+def random_histories(ctx, n_ex):
     # the witnesses of fixed findings run first (corpus)
     corpus = [[('add', 0), ('add', 1), ('remove', 1, 12), ('add', 1), ('add', 0)],
-              [('add', 0), ('add', 1), ('replace', 3), ('add', 0), ('deploy',), ('eval', 11)]]
+              [('add', 0), ('add', 1), ('replace', 3), ('add', 0), ('deploy',), ('eval', 11)],
+              [('add', 0), ('deploy',), ('eval', 11), ('replace', 4), ('deploy',), ('eval', 11), ('replace', 0), ('eval', 11), ('deploy',), ('eval', 11)]]
     rnd = []
-    for _ in range(ctx.pick(1500, 20000)):
+    evals = [o for o in ALPHABET if o[0] == 'eval']
+    for j in range(ctx.pick(1500, 20000)):
         L = ctx.rng.randint(n_ex + 1, ctx.pick(14, 60))
-        rnd.append([ctx.rng.choice(ALPHABET) for _ in range(L)])
-    return corpus + hs + rnd, exhaustive
+        if j % 2 == 0:
+            rnd.append([ctx.rng.choice(ALPHABET) for _ in range(L)])
+        else:
+            # every third operation on average is followed by deploy and an evaluation, so that evaluations are answered with values
+            h = []
+            while len(h) < L:
+                h.append(ctx.rng.choice(ALPHABET))
+                if ctx.rng.random() < 0.35:
+                    h += [('deploy',), ctx.rng.choice(evals)]
+                    if ctx.rng.random() < 0.3:
+                        h.append(ctx.rng.choice(evals))
+            rnd.append(h)
+    return corpus + rnd
 
 
 def run(ctx):
     ctx.proof_gate()
     ctx.build_harness()
-    hs, n_ex = histories(ctx)
-    reqs = [{'models': XMLS, 'ops': [impl_op(o) for o in h]} for h in hs]
-    impl = ctx.run_impl('ws', reqs)
-    traces = ctx.run_model(HEADER, ['trace remove [%s]' % '; '.join(coq_op(o) for o in h) for h in hs], shard_size=700)
     kinds = {}
+    n_ex = ctx.pick(4, 5)
+    t0 = time.time()
+    n_nodes = exhaustive(ctx, n_ex, kinds)
+    t_ex = time.time() - t0
+    hs = random_histories(ctx, n_ex)
+    impl = ctx.run_impl('ws', [ws_request(h) for h in hs], shards=16)
+    traces = ctx.run_model(HEADER, ['trace remove [%s]' % '; '.join(coq_op(o) for o in h) for h in hs], shard_size=ctx.pick(100, 400))
+    served_docs = 0
     for h, st, tr in zip(hs, impl, traces):
         ctx.evaluations += 1
         key = tuple(h)
@@ -175,11 +418,14 @@ def run(ctx):
             ctx.violation('workspace operation sequence crashed the process or panicked: %s' % json.dumps(st)[:200], {'history': h}, impl=st)
             continue
         sv = spec_violation(h, st)
-        got, bad = canon_steps(h, st, tr)
+        got = canon_steps(h, st)
         exp = expected_steps(h, tr)
         ctx.corr_checked += 1
-        if sv or bad:
-            ctx.violation(sv or bad, {'history': h}, impl=st, model=exp)
+        if any(isinstance(e['r'], dict) for e in exp):
+            served_docs += 1
+        stale = stale_document(h, got, exp) if not sv else None
+        if sv or stale:
+            ctx.violation(sv or stale[1], {'history': h if sv else h[:stale[0] + 1]}, impl=st, model=exp)
             continue
         if got != exp:
             # first differing step
@@ -192,10 +438,14 @@ def run(ctx):
             ctx.sample({'history': [list(o) for o in h], 'final_state': got[-1]['s']})
     return ctx.finish(
         rule='histories over the alphabet of 6 DMN documents sharing namespaces/names pairwise (A, B, C=A.ns, D=A.name, A\' identical, E fails to build) and '
-             '21 operations; exhaustive to length %d (%d histories, every prefix state compared) plus random longer ones; non-trivial = length>=3 containing remove/replace' % (ctx.pick(3, 4), n_ex),
-        extra_cov={'exhaustive': False, 'exhaustive_prefix_length': ctx.pick(3, 4), 'operation_histogram': kinds},
+             '%d operations; exhaustive to length %d (%d histories of length 1..%d, the result and the state after each compared with the proved model, which also '
+             'says WHICH document answers an evaluation) plus random longer ones; non-trivial = length>=3 containing remove/replace'
+             % (len(ALPHABET), n_ex, n_nodes, n_ex),
+        extra_cov={'exhaustive': False, 'exhaustive_prefix_length': n_ex, 'exhaustive_histories': n_nodes, 'exhaustive_seconds': round(t_ex, 1),
+                   'random_histories_with_a_served_evaluation': served_docs, 'operation_histogram': kinds},
         assumptions=['the six DMN documents stand for all models: the workspace only looks at namespace, name and whether ModelEvaluator::new succeeds',
-                     'HashMap key sets are compared as sorted sets'],
+                     'HashMap key sets are compared as sorted sets',
+                     'the document that answers an evaluation is identified by the constant its decision returns (A 101, B 102, C 103, D 104, A\' 105)'],
         trusted=['hook Workspace::verif_snapshot (read-only, --cfg dmntk_verif)'])
 
 
@@ -209,13 +459,23 @@ def replay(ctx, path):
     print('implementation:', json.dumps(impl))
     print('model         :', json.dumps(expected_steps(h, tr)))
     sv = spec_violation(h, impl) if isinstance(impl, list) else 'crash'
-    got, bad = canon_steps(h, impl, tr) if isinstance(impl, list) else (None, 'crash')
-    fail = sv or bad or (got != expected_steps(h, tr))
+    got = canon_steps(h, impl) if isinstance(impl, list) else None
+    fail = sv or got is None or (got != expected_steps(h, tr))
     print('REPRODUCED' if fail else 'not reproduced')
     return 1 if fail else 0
 
 
 MANIFEST = dict(
-    technique='Coq proof (invariant by induction over histories + refinement of an abstract workspace) with model/code correspondence',
-    text='Theorems (coq/Props/C17.v, closed under the global context) hold for every operation history of the modelled workspace: the index/list invariant, refinement of the abstract workspace, add-iff-free, deployed-exactly, failed-build isolation. The model is tied to workspace.rs by comparing every step of exhaustive short and random long histories (state via the verif_snapshot hook).',
-    note='Trusted: Coq kernel + vm_compute, hand-written model of workspace.rs (correspondence-checked, not verified), harness, ModelEvaluator::new abstracted to a `builds` flag.')
+    technique='Coq proof (invariant by induction over histories; refinement, through an abstraction function, of an abstract workspace given by predicates on a set of stored documents) with model/code correspondence, exhaustive to length 4 / 5',
+    text='Theorems (coq/Props/C17.v, closed under the global context), for every operation history of the modelled workspace (list + two index maps + evaluator map, as workspace.rs): '
+         'the index/list invariant (C17_reachable_inv); C17_refines_abstract_spec: the states read through the abstraction function and the results are a run of the ABSTRACT workspace of coq/C17/Abstract.v - '
+         'a set of (namespace, name, builds, document) elements and a served relation, every operation given by a predicate on membership (add succeeds iff no stored element has that namespace or that name and then the set gains exactly it; '
+         'remove n k keeps exactly the elements with another namespace AND another name - the or-semantics of Workspace::remove is the specification choice, stated not derived; replace = remove by both keys then add; clear; '
+         'deploy serves exactly the stored elements that build; any modification leaves nothing served), which shares no list function or index with the implementation model and is deterministic (C17_refines_abstract_spec_unique); '
+         'the sentences of the property as corollaries about that abstract workspace (C17_abs_add_iff_free, C17_abs_remove_exactly, C17_abs_remove_no_stale_key, C17_abs_remove_then_add, C17_abs_replace, C17_abs_modification_undeploys, '
+         'C17_abs_deploy_exactly, C17_abs_evaluable_exactly) and transferred to the implementation model (C17_add_iff_free, C17_impl_remove_exactly, C17_impl_remove_frees_both_keys, C17_deployed_exactly, C17_mutation_undeploys, C17_failed_build_isolated). '
+         'The model carries the identity of the document: C17_replace_serves_new_document - after any history, replace m; deploy; evaluate (name of m) is answered by m itself, not by a stored document of the same namespace and name. '
+         'The older list-shaped abstract workspace (C17_refines_abstract) shares the filter `retained` with the implementation model and is kept as a lemma. '
+         'The model is tied to workspace.rs by comparing the result and the state (hook verif_snapshot) after EVERY history of length 1..4 (quick) / 1..5 (thorough) over 22 operations on six documents, and of random longer ones; '
+         'the value of each evaluation must be that of the document the Coq model says is served. The property text speaks of length 6: beyond 4 / 5 the unbounded part is the theorem, not the enumeration.',
+    note='Trusted: Coq kernel + vm_compute, hand-written model of workspace.rs (correspondence-checked, not verified), harness, ModelEvaluator::new abstracted to a `builds` flag, a document identified by the constant its decision returns.')
